@@ -445,6 +445,16 @@ func (c *EvalCtx) evalSel(e *ESel) Val {
 		}
 		c.fail("no field %s", e.F)
 	}
+	if x.K == KIface && x.T != nil {
+		// ghost field of an interface-typed value: keyed by the reference it holds
+		tkey := typeKey(x.T)
+		if tc := eng.cs.Types[tkey]; tc != nil {
+			if g := tc.Ghost[e.F]; g != nil {
+				return c.loadGhost(x.S, tkey, g)
+			}
+		}
+		c.fail("interface type %s has no ghost field %s", tkey, e.F)
+	}
 	if x.K != KScalar || x.T == nil {
 		c.fail("selector %s on non-reference", e.F)
 	}
